@@ -3,6 +3,7 @@ import StorageModel.Cursor.Kinds
 import StorageModel.Cursor.Stacked
 import StorageModel.Cursor.Reuse
 import StorageModel.Cursor.Multi
+import StorageModel.Cursor.World
 /- model driver for C14: `run spec` reads case lines on stdin and prints one output line per case
    (spec = false: the engine model's output; spec = true: the spec's verdict).
 
@@ -45,6 +46,16 @@ import StorageModel.Cursor.Multi
              link rclinkf rclinkr relf relr setsym ids           (one collection / store / entity)
      script  steps `<i><op>` separated by ',': operate cursor i (a digit), '_' = none
    output: the observation of every cursor after opening, then after every step that of the operated cursor
+
+   re-opened / re-sought after a write:   W;MODE;PATH;THINGS;OTHERS;KEEP <items>
+     MODE   d r q q.S.L n as for R (n also: blist bdirf bdirr btypedf btypedr bseekable bopenf bopenr = the cursor
+            providers of the TypedBucket of the row's `tags` list), and
+            i  the id cursor things.IterateIds(tx, FILTER) with PATH = FILTER: any.T (anyOf(tags) = "T") none.T
+               (not (anyOf(tags) = "T")) empty (isEmpty(tags)) cnt.N (count(tags) >= N) lnk.O (anyOf(others) = "O") true
+     items  '/'-separated `[WRITE&WRITE…>]ENTRY:ops`; ENTRY = o<row> | s<v> | t<v>
+     WRITE  U=id=tags=others=boss  T=id=tags  P=id=x  X=id=x  M=id=x=y|~  L+=id=o  L-=id=o  R+=id=o  R-=id=o
+            D=id  C=id=tags  OU=oid=tags=name        (lists ','-separated)
+   output: for every item the observation after the entry and after every operation (`fail` = the code makes no promise)
 
    exhaustive block:   X <desc> <k> <op,op,…>
      every script of length ≤ k over the given operations is run; output `<count> <h> <hn>` where
@@ -356,6 +367,202 @@ def reuseCase (line : String) : Option (List String × String) :=
   | _ => none
 
 
+/-! re-opened / re-sought after a write (`W` cases) -/
+
+def toWorld (things : List ThingRow) (others : List OtherRow) : World :=
+  { things := things.map fun t => { id := t.id, tags := t.tags, others := t.others, boss := t.boss, rc := t.rc },
+    others := others.map fun o => { id := o.id, tags := o.tags, name := o.name } }
+
+def thingRows (w : World) : List ThingRow :=
+  w.things.map fun t => { id := t.id, tags := t.tags, others := t.others, boss := t.boss, rc := t.rc }
+
+def otherRows (w : World) : List OtherRow := w.others.map fun o => { id := o.id, tags := o.tags, name := o.name }
+
+def parseWrite (s : String) : Option Write :=
+  match s.splitOn "=" with
+  | ["U", i, t, o, b] => do pure (.update (← Bytes.ofHex i) (← parseSet t) (← parseSet o) (← parseOpt b))
+  | ["T", i, t] => do pure (.setTags (← Bytes.ofHex i) (← parseSet t))
+  | ["P", i, x] => do pure (.putTag (← Bytes.ofHex i) (← Bytes.ofHex x))
+  | ["X", i, x] => do pure (.delTag (← Bytes.ofHex i) (← Bytes.ofHex x))
+  | ["M", i, x, y] => do pure (.mapTag (← Bytes.ofHex i) (← Bytes.ofHex x) (← parseOpt y))
+  | ["L+", i, o] => do pure (.addLink (← Bytes.ofHex i) (← Bytes.ofHex o))
+  | ["L-", i, o] => do pure (.removeLink (← Bytes.ofHex i) (← Bytes.ofHex o))
+  | ["R+", i, o] => do pure (.rcAdd (← Bytes.ofHex i) (← Bytes.ofHex o))
+  | ["R-", i, o] => do pure (.rcDrop (← Bytes.ofHex i) (← Bytes.ofHex o))
+  | ["D", i] => do pure (.delete (← Bytes.ofHex i))
+  | ["C", i, t] => do pure (.create (← Bytes.ofHex i) (← parseSet t))
+  | ["OU", i, t, n] => do pure (.updateOther (← Bytes.ofHex i) (← parseSet t) (← parseOpt n))
+  | _ => none
+
+def parseEntry (s : String) : Option (Entry Bytes) :=
+  let v := Bytes.ofHex (s.drop 1).toString
+  if s.startsWith "o" then v.map Entry.open
+  else if s.startsWith "s" then v.map Entry.seek
+  else if s.startsWith "t" then v.map Entry.seekS
+  else none
+
+def parseItem (s : String) : Option (Item Write Bytes) := do
+  let (ws, rest) ← match s.splitOn ">" with
+    | [rest] => some ([], rest)
+    | [ws, rest] => do pure (← (ws.splitOn "&").mapM parseWrite, rest)
+    | _ => none
+  match rest.splitOn ":" with
+  | [e, o] => do pure { writes := ws, entry := ← parseEntry e, ops := ← parseOps o }
+  | _ => none
+
+def parseItems (s : String) : Option (List (Item Write Bytes)) := (s.splitOn "/").mapM parseItem
+
+/-- the world at each item (after its writes) -/
+def worldsOf : List (Item Write Bytes) → World → List World
+  | [], _ => []
+  | it :: rest, w => let w' := applyAll World.applyWrite it.writes w; w' :: worldsOf rest w'
+
+def entryRow : Entry Bytes → Option Bytes
+  | .open k => some k
+  | _ => none
+
+def setRowsW (path : String) : Option ((World → Bytes → Option (List Bytes)) × (World → Bytes → World.Ident)) :=
+  match path with
+  | "tags" => some (World.tagsOf, World.tagsIdent)
+  | "others" => some (World.othersOf, World.othersIdent)
+  | "rcOthers" => some (World.rcOf, World.rcIdent)
+  | _ => none
+
+inductive ProvKind where
+  | tf | tr | rf | rr
+
+/-- a provider: which adapter it returns, over which elements, held by which bucket object -/
+def providerW (path : String) : Option (ProvKind × (World → Bytes → List Bytes) × (World → Bytes → World.Ident)) :=
+  let tags := fun (w : World) k => dedupSort ((w.tagsOf k).getD [])
+  let others := fun (w : World) k => dedupSort ((w.othersOf k).getD [])
+  let rc := fun (w : World) k => dedupSort ((w.rcOf k).getD [])
+  match path with
+  | "relf" | "blist" | "bdirf" | "btypedf" => some (.tf, tags, World.tagsIdent)
+  | "relr" | "bdirr" | "btypedr" => some (.tr, tags, World.tagsIdent)
+  | "bseekable" | "bopenf" => some (.rf, tags, World.tagsIdent)
+  | "bopenr" => some (.rr, tags, World.tagsIdent)
+  | "link" => some (.tf, others, World.othersIdent)
+  | "rclinkf" => some (.tf, rc, World.othersIdent)   -- the provider creates the bucket when there is none
+  | "rclinkr" => some (.tr, rc, World.othersIdent)
+  | _ => none
+
+/-- the filter of an id cursor, as a predicate on the row in the CURRENT world -/
+def idFilter (f : String) : Option (World → Bytes → Bool) :=
+  match f.splitOn "." with
+  | ["true"] => some fun _ _ => true
+  | ["any", t] => (Bytes.ofHex t).map fun t w id => ((w.tagsOf id).getD []).contains t
+  | ["none", t] => (Bytes.ofHex t).map fun t w id => !((w.tagsOf id).getD []).contains t
+  | ["empty"] => some fun w id => ((w.tagsOf id).getD []).isEmpty
+  | ["cnt", n] => n.toNat?.map fun n w id => decide ((dedupSort ((w.tagsOf id).getD [])).length ≥ n)
+  | ["lnk", o] => (Bytes.ofHex o).map fun o w id => ((w.othersOf id).getD []).contains o
+  | _ => none
+
+def writeStep (spec : Bool) (toks : List String) (sg : String) : String :=
+  match toks with
+  | [mode, path, th, ot, kp] =>
+    match parseRows parseThing th, parseRows parseOther ot, parseSet kp, parseItems sg with
+    | some things, some others, some keep, some items =>
+      let w0 := toWorld things others
+      let worlds := worldsOf items w0
+      let paging := parsePaging mode
+      let isQ := paging.isSome
+      let (skip, limit) := paging.getD (0, none)
+      let paged := skip != 0 || limit.isSome
+      let cfg := subQueryCfg keep skip limit
+      let rs : World → Bytes → Render := fun _ _ => some
+      let chainOf := fun (w : World) => (stackedChain path (thingRows w) (otherRows w)).getD []
+      let rowsAt := (items.zip worlds).filterMap fun (it, w) => (entryRow it.entry).map fun k => (w, k)
+      if mode = "i" then
+        match idFilter path with
+        | some flt =>
+          let fuel := maxOf (worlds.map fun w => w.ids.length) + 3
+          if spec then
+            showRun (specRunW (fun (w : World) (_ : Bytes) => Spec.seekable .fwd (w.ids.filter (flt w))) rs
+              (fun _ _ => ()) true World.applyWrite items w0 none)
+          else
+            showRun ((scanW (fwdW (fun (w : World) (_ : Bytes) => w.ids) (fun _ _ => ()))
+              (fun w => { skipRow := fun _ => false, filter := flt w, targetOffset := 0, targetLimit := none }) fuel).run
+              World.applyWrite items w0 none
+              { cursor := newForwardBoltCursor [], current := none, offset := 0, collected := 0 })
+        | none => "bad-case"
+      else if mode = "n" then
+        match providerW path with
+        | some (kind, elems, ident) =>
+          let init := newForwardBoltCursor []
+          match kind with
+          | .tf =>
+            if spec then showRun (specRunW (fun w k => Spec.seekable .fwd (elems w k)) rs ident true World.applyWrite items w0 none)
+            else showRun ((tfwdW typeString elems ident).run World.applyWrite items w0 none init)
+          | .tr =>
+            if spec then showRun (specRunW (fun w k => Spec.seekable .rev (elems w k).reverse) rs ident true World.applyWrite items w0 none)
+            else showRun ((trevW typeString elems ident).run World.applyWrite items w0 none init)
+          | .rf =>
+            if spec then showRun (specRunW (fun w k => Spec.seekable .fwd (tagged typeString (elems w k))) rs ident true World.applyWrite items w0 none)
+            else showRun ((fwdW (fun w k => tagged typeString (elems w k)) ident).run World.applyWrite items w0 none init)
+          | .rr =>
+            if spec then showRun (specRunW (fun w k => Spec.seekable .rev (tagged typeString (elems w k)).reverse) rs ident true World.applyWrite items w0 none)
+            else showRun ((revW (fun w k => tagged typeString (elems w k)) ident).run World.applyWrite items w0 none init)
+        | none => "bad-case"
+      else match setRowsW path with
+      | some (rows, ident) =>
+        if isQ then
+          let ok := fun (x : Bytes) => !x.isEmpty && Desc.mem keep x
+          let E := fun (w : World) k => ((rows w k).map dedupSort).getD []
+          let fuel := maxOf (rowsAt.map fun (w, k) => (E w k).length) + 3
+          if paged then
+            if spec then
+              showRun (specRunW (fun w k => Spec.plain (pageOf skip limit ((E w k).filter ok))) rs (fun _ _ => ()) false
+                World.applyWrite items w0 none)
+            else
+              showRun ((WObject.ofFamily fun w => scanReusable (setSymReusable (rows w)) cfg fuel).run World.applyWrite items w0 none
+                { cursor := setSymNew, current := none, offset := 0, collected := 0 })
+          else if spec then
+            -- the linked ids of the row that the query accepts, in key order; Seek: the set symbol's raw seek
+            -- (compares with the stored keys), then the next accepted row — in the world as it is NOW
+            showRun (specRunW (fun w k =>
+              ({ list := (E w k).filter ok,
+                 seek := some fun v _ => ((E w k).dropWhile fun e => decide (prependFieldType typeString e < v)).filter ok,
+                 seekS := none } : Spec)) rs ident true World.applyWrite items w0 none)
+          else
+            showRun ((scanW (setSymW rows ident) (fun _ => cfg) fuel).run World.applyWrite items w0 none
+              { cursor := setSymNew, current := none, offset := 0, collected := 0 })
+        else if spec then
+          showRun (specRunW (fun w k => setRowSpec (rows w k)) rs ident true World.applyWrite items w0 none)
+        else showRun ((setSymW rows ident).run World.applyWrite items w0 none setSymNew)
+      | none =>
+        match stackedChain path things others with
+        | some _ =>
+          let fuel := maxOf (rowsAt.map fun (w, k) => stackedFuel (chainOf w) (some k))
+          if isQ then
+            let vals := fun (w : World) k => ((stackedKeys (chainOf w) (some k)).filterMap rowKeyOf).filter (Desc.mem keep)
+            if spec then
+              showRun (specRunW (fun w k =>
+                if paged then Spec.plain (pageOf skip limit (vals w k)) else
+                ({ list := vals w k, seek := some fun v rem => rem.dropWhile (fun x => decide (x < v)), seekS := none } : Spec))
+                rs (fun _ _ => ()) false World.applyWrite items w0 none)
+            else
+              let fuel' := maxOf (rowsAt.map fun (w, k) => (stackedKeys (chainOf w) (some k)).length) + 3
+              showRun ((WObject.ofFamily fun w => scanReusable (compReusable (chainOf w) fuel some) cfg fuel').run
+                World.applyWrite items w0 none
+                { cursor := { stack := [], key := none }, current := none, offset := 0, collected := 0 })
+          else if spec then
+            showRun (specRunW (fun w k => Spec.plain ((stackedKeys (chainOf w) (some k)).map valueOf)) rs (fun _ _ => ()) false
+              World.applyWrite items w0 none)
+          else
+            showRun ((WObject.ofFamily fun w => compReusable (chainOf w) fuel some).run World.applyWrite items w0 none
+              { stack := [], key := none })
+        | none => "bad-case"
+    | _, _, _, _ => "bad-case"
+  | _ => "bad-case"
+
+def writeCase (line : String) : Option (List String × String) :=
+  match splitSp line with
+  | [d, o] => match d.splitOn ";" with
+    | "W" :: toks => some (toks, o)
+    | _ => none
+  | _ => none
+
+
 /-! several cursors alive at once (`M` cases) -/
 
 def openerDesc (xs : List Bytes) : String → Option Desc
@@ -466,6 +673,9 @@ def step (line : String) : String :=
   match splitSp line with
   | ["X", d, k, a] => blockStep false d k a
   | _ =>
+    match writeCase line with
+    | some (toks, o) => writeStep false toks o
+    | none =>
     match multiCase line with
     | some (toks, o) => multiStep false toks o
     | none =>
@@ -483,6 +693,9 @@ def specStep (line : String) : String :=
   match splitSp line with
   | ["X", d, k, a] => blockStep true d k a
   | _ =>
+    match writeCase line with
+    | some (toks, o) => writeStep true toks o
+    | none =>
     match multiCase line with
     | some (toks, o) => multiStep true toks o
     | none =>
